@@ -839,6 +839,9 @@ func (pm *ProtocolManager) handleGetBlocksMsg(msg *p2p.Msg, p *peer) error {
 
 // respBlocks response blocks to remote peer
 func (pm *ProtocolManager) respBlocks(from, to uint32, p *peer, hasChangeLog bool) {
+	if cur := pm.chain.CurrentBlock().Height(); to > cur {
+		to = cur // there is nothing above the head (GetBlockByHeight answers with the head itself there)
+	}
 	log.Info("response blocks", "peer", p.NodeID().String()[:16], "fromHeight", from, "toHeight", to)
 	if from == to {
 		b := pm.chain.GetBlockByHeight(from)
